@@ -48,6 +48,12 @@ chk("C13", "exploration",
     "Trusted: io.SectionReader, the archive renderer/model in harness/ar.go, the simulated disk. Real code: deb.LoadAr, Ar.Next, parseArEntry.",
     "DESIGN.md §5 C13")
 
+chk("C20", "fault_enumeration",
+    "deterministic simulation: uploads executed on an in-memory simulated file system substituted for package os in an instrumented scratch copy; uploader, queue-watcher and second-uploader tasks interleaved by a seeded scheduler at every file-system call; one fault (errno, short write, crash before/after) at a chosen call index, swept over every call index x fault kind per workload in the thorough tier; invariants checked after every call and over the recorded history; tape minimisation and exact replay",
+    "For each sampled workload the fault dimension (call index x fault kind) is enumerated completely in the thorough tier (and for 48 workloads in quick); workloads, interleavings and listed-name shapes are sampled. Order and remove-order invariants are evaluated after every single file-system call, i.e. at every instant an inotify watcher could observe.",
+    "Trusted: the simos model of POSIX semantics (differentially tested against the real os), vinstr's import swap (any os symbol the shim lacks fails the build: exit 2). Real code (instrumented copy of the working tree): control.DSC/Changes Copy/Move/Remove, AbsFiles, ParseDscFile/ParseChangesFile, internal.Copy.",
+    "DESIGN.md §5 C20")
+
 def main():
     props = [json.loads(l) for l in open(os.path.join(HERE, "properties.jsonl"))]
     ids = [p["id"] for p in props]
